@@ -151,6 +151,14 @@ def run_shards(prop_id, specs, timeout_s):
     return results
 
 
+def emit(text):
+    try:
+        print(text)
+        sys.stdout.flush()
+    except BrokenPipeError:
+        pass
+
+
 def load_known():
     p = os.path.join(VERIF, 'known_findings.json')
     if not os.path.exists(p):
@@ -285,17 +293,17 @@ def main(prop_id, tier, seed, replay=None):
         with open(os.path.join(VERIF, 'evidence', '%s.json' % prop_id), 'w') as f:
             json.dump(ev, f, indent=1, default=repr)
 
-    print('%s tier=%s seed=%s verdict=%s evaluations=%d distinct_nontrivial=%d wall=%.1fs' % (
+    emit('%s tier=%s seed=%s verdict=%s evaluations=%d distinct_nontrivial=%d wall=%.1fs' % (
         prop_id, tier, seed, verdict, evaluations, len(nontrivial), time.time() - t0))
-    print('  counters: %s' % json.dumps(counters, sort_keys=True))
+    emit('  counters: %s' % json.dumps(counters, sort_keys=True))
     if distincts:
-        print('  distinct: %s' % json.dumps({k: len(v) for k, v in distincts.items()}, sort_keys=True))
+        emit('  distinct: %s' % json.dumps({k: len(v) for k, v in distincts.items()}, sort_keys=True))
     for ln in lines:
-        print(ln)
+        emit(ln)
     if new_viol:
         return 1
     if inconclusive:
         for r in inconclusive[:10]:
-            print('INCONCLUSIVE property=%s reason=%s' % (prop_id, str(r)[:600]))
+            emit('INCONCLUSIVE property=%s reason=%s' % (prop_id, str(r)[:600]))
         return 2
     return 0
